@@ -69,6 +69,52 @@ def _case_hash(case):
     return int.from_bytes(hashlib.blake2b(repr(case).encode("utf-8", "surrogatepass"), digest_size=8).digest(), "big")
 
 
+def _run_isolated(case):
+    """run_case in a forked child of this worker: the case starts from the worker's pristine state (nothing an earlier case of the
+    chunk left in the library's modules can mask or cause what this case observes).  The child's result comes back pickled over a pipe."""
+    import pickle
+
+    rfd, wfd = os.pipe()
+    pid = os.fork()
+    if pid == 0:
+        code = 0
+        try:
+            os.close(rfd)
+            try:
+                payload = ("r", _mod.run_case(case))
+            except BaseException as e:  # classified by the parent exactly like an in-process exception
+                frames = traceback.extract_tb(e.__traceback__)
+                inner = getattr(e, "exc", None)
+                if inner is not None:
+                    frames = frames + traceback.extract_tb(inner.__traceback__)
+                payload = ("x", [(f.filename, f.name) for f in frames], type(inner if inner is not None else e).__name__, repr(inner if inner is not None else e), traceback.format_exc())
+            with os.fdopen(wfd, "wb") as fd:
+                pickle.dump(payload, fd, protocol=4)
+        except BaseException:
+            code = 3
+        finally:
+            os._exit(code)
+    os.close(wfd)
+    with os.fdopen(rfd, "rb") as fd:
+        data = fd.read()
+    _, status = os.waitpid(pid, 0)
+    if not data:
+        raise RuntimeError("isolated case died without a result (exit status {})".format(status))
+    payload = pickle.loads(data)
+    if payload[0] == "r":
+        return payload[1]
+    _, frames, exc_name, exc_repr, tb = payload
+    lib = [name for fn, name in frames if fn.startswith(REPO + "/ctparse/")]
+    if not lib:
+        raise RuntimeError("harness error in isolated case:\n" + tb)
+    if getattr(_mod, "ON_LIBRARY_RAISE", "violation") == "skip":
+        return {"o": "library-raised", "skip": "the library raised on this case (totality is C01's statement; nothing to judge here)", "nt": False}
+    return {"o": "library-raised", "nt": True, "v": [{"sig": {"kind": "library_raised", "exc": exc_name, "where": lib[-1]}, "msg": "library raised {} in {} on case {!r}".format(exc_repr, lib[-1], case)[:500]}]}
+
+
+_ISOLATE = False
+
+
 def _wrun(arg):
     idx, chunk, want_hash = arg
     out = {
@@ -88,7 +134,7 @@ def _wrun(arg):
     for pos, case in enumerate(chunk):
         try:
             try:
-                r = _mod.run_case(case)
+                r = _run_isolated(case) if _ISOLATE else _mod.run_case(case)
             except Exception as le:
                 import traceback as _tb
 
@@ -217,6 +263,8 @@ def run_module(modname, tier, seed, replay=None):
     want_hash = plan.get("hash_distinct", True)
     err = None
     nproc = min(NPROC, plan.get("nproc", NPROC))
+    global _ISOLATE
+    _ISOLATE = bool(plan.get("isolate"))  # inherited by the forked workers
     if nproc <= 1:
         _winit(modname)
         results = (_wrun((i, c, want_hash)) for i, c in _chunks(cases, chunk))
